@@ -10,7 +10,7 @@ import ast
 
 from csverif import absint
 from csverif.astutil import (
-    assignments_to, body_walk, const_eval, dotted, fn_calls, is_const, kwarg, NotConst, params, src, statements,
+    assignments_to, bind_args, body_walk, const_eval, dotted, fn_calls, is_const, kwarg, NotConst, params, src, statements,
     param_defaults,
 )
 from csverif.cfg import ENTRY, EXIT, RAISE
@@ -367,6 +367,21 @@ def r6(ctx):
         for r in cfg.raise_stmts():
             if spec.reaches(ENTRY, cfg.node(r)):
                 ctx.ob("R6", "EXIT", f, src(r), raise_class(r) == "ValueError", f"raises {raise_class(r)} without key (documented ValueError)", r)
+
+
+    # the packet-level functions hand their own key and IV to the data-level ones ("under the configured IV")
+    for caller, callee in (("c2.decrypt_packet", "c2.decrypt_data"), ("c2.encrypt_packet", "c2.encrypt_data")):
+        f = ctx.repo.func(caller)
+        cs = calls_to(ctx, f, target_fq=callee)
+        if not cs:
+            ctx.ob("R6", "AGREE", f, f"{callee.split('.')[1]}(...)", False, f"{caller} no longer calls {callee}", f.node)
+        for c in cs:
+            b = bind_args(c, ctx.repo.func(callee).node)
+            got = {p: dotted(b.get(p)) for p in ("aes_key", "iv")}
+            rebound = [p for p in ("aes_key", "iv") if assignments_to(f.node, p)]
+            ok = got == {"aes_key": "aes_key", "iv": "iv"} and not rebound
+            ctx.ob("R6", "AGREE", f, src(c) + " forwards key and IV", ok,
+                   f"callee parameters bound to {got}" + (f"; {rebound} rebound in {caller}" if rebound else "") + " (required: the caller's own aes_key and iv)", c)
 
 
 # ---------------------------------------------------------------------------- R7
